@@ -212,6 +212,7 @@ fn fixed_dicts() -> Vec<Dict> {
         Dict { entries: vec![e("df", "v"), e("dfa gh", "tq")] },
         // chains without a shared prefix
         Dict { entries: vec![e("ab", "xyz"), e("abc", "pqr"), e("abcd", "lmn")] },
+        Dict { entries: vec![e("gh", "hi"), e("ghef", "bye"), e("rq", "request"), e("rqa", "request assistance")] },
         Dict { entries: vec![e("ab", "Hello"), e("cd", "World"), e("ab cd", "both"), e("cd ab", "htob")] },
     ]
 }
@@ -318,6 +319,12 @@ struct Built {
 
 /// orders: one press order per chord of the entry
 fn build_entry(orders: &[Vec<char>], held: Held, tail: Tail, rng: &mut Rng) -> Built {
+    build_entry_timed(orders, held, tail, rng, None, None)
+}
+
+/// `slow`: (number of keys of the last chord after which to pause, pause in ms);
+/// `chord_gap`: pause between the chords of a line instead of a short one
+fn build_entry_timed(orders: &[Vec<char>], held: Held, tail: Tail, rng: &mut Rng, slow: Option<(usize, u32)>, chord_gap: Option<u32>) -> Built {
     let mut h = vec![Ev::T(3)];
     if let Some(m) = held.key() {
         h.push(Ev::P(osc(m)));
@@ -327,7 +334,13 @@ fn build_entry(orders: &[Vec<char>], held: Held, tail: Tail, rng: &mut Rng) -> B
         for (i, k) in order.iter().enumerate() {
             h.push(Ev::P(osc(&keyname(*k))));
             if i + 1 < order.len() {
-                h.push(Ev::T(*rng.pick(&[1u32, 1, 2, 3])));
+                match slow {
+                    Some((after, gap)) if ci + 1 == orders.len() && i + 1 == after => h.push(Ev::T(gap)),
+                    // fixed pace around a timed pause: 4 ms before it (so that the first press lies well
+                    // before the activation), 1 ms after it
+                    Some((after, _)) if ci + 1 == orders.len() => h.push(Ev::T(if i + 1 < after { 4 } else { 1 })),
+                    _ => h.push(Ev::T(*rng.pick(&[1u32, 1, 2, 3]))),
+                }
             }
         }
         h.push(Ev::T(*rng.pick(&[2u32, 5, 8])));
@@ -338,7 +351,7 @@ fn build_entry(orders: &[Vec<char>], held: Held, tail: Tail, rng: &mut Rng) -> B
             h.push(Ev::T(*rng.pick(&[0u32, 1, 2])));
         }
         if ci + 1 < orders.len() {
-            h.push(Ev::T(*rng.pick(&[2u32, 6])));
+            h.push(Ev::T(chord_gap.unwrap_or(*rng.pick(&[2u32, 6]))));
         }
     }
     h.push(Ev::T(4));
@@ -741,13 +754,118 @@ impl Check for C20Check {
                 }
             }
         }
+        // ---- an activation restarts the deadline ("If, after the first press, a chord activates, this
+        // deadline will reset to enable further chord activations"): a chord F is completed quickly, the
+        // keys that extend it to the entry E follow deadline-5 ms after F's activation (more than the
+        // deadline after the very first press) -> E; deadline+5 ms -> zippy is disabled, the keys pass through
+        for e in d.entries.iter() {
+            let last: BTreeSet<char> = e.chords.last().expect("chord").iter().copied().collect();
+            let pre = &e.path()[..e.chords.len() - 1];
+            let subs: Vec<&Entry> = d
+                .entries
+                .iter()
+                .filter(|f| f.chords.len() == e.chords.len() && f.path()[..f.chords.len() - 1] == *pre && {
+                    let fs: BTreeSet<char> = f.chords.last().expect("chord").iter().copied().collect();
+                    fs.len() >= 2 && fs.is_subset(&last) && fs != last
+                })
+                .collect();
+            if subs.is_empty() {
+                continue;
+            }
+            let f = *rng.pick(&subs);
+            let mut first: Vec<char> = f.chords.last().expect("chord").clone();
+            rng.shuffle(&mut first);
+            let mut rest: Vec<char> = last.iter().copied().filter(|k| !first.contains(k)).collect();
+            rng.shuffle(&mut rest);
+            let mut orders: Vec<Vec<char>> = e.chords[..e.chords.len() - 1]
+                .iter()
+                .map(|c| {
+                    let mut c = c.clone();
+                    rng.shuffle(&mut c);
+                    c
+                })
+                .collect();
+            let mut full = first.clone();
+            full.extend(rest.iter().copied());
+            orders.push(full);
+            let st = analyse(&d, e, &orders);
+            if st.ambiguous {
+                continue;
+            }
+            // within: the last extending key arrives deadline-3 ms after the activation of the smaller chord,
+            // i.e. more than the deadline after the very first press
+            for (gap, within) in [(deadline - 3 - (rest.len() as u32 - 1), true), (deadline + 5, false)] {
+                let b = build_entry_timed(&orders, Held::None, Tail::None, &mut rng, Some((first.len(), gap)), None);
+                let Ok((trace, _)) = run(&cfg, &file, &b.hist, None) else { continue };
+                let (screen, _) = replay(&trace, &km);
+                let got = text(&screen);
+                let want_e = expected_entry(&e.out, smart, Tail::None);
+                let mut want_f = expected_entry(&f.out, smart, Tail::None);
+                want_f.extend(rest.iter());
+                let want = if within { &want_e } else { &want_f };
+                out.inc("deadline_restart_scenarios");
+                let known_class = if st.followup_part_not_in_toplevel {
+                    Some("followup-part-not-in-toplevel-chord")
+                } else if st.followup_within_hold {
+                    Some("followup-chord-completed-within-parent-hold")
+                } else if st.followup_extends_sibling {
+                    Some("followup-chord-extends-sibling-followup")
+                } else if st.empty_node_after_activation {
+                    Some("empty-output-node-extends-activated-chord")
+                } else if st.chain_shared_prefix {
+                    Some("superset-chain-shared-prefix")
+                } else {
+                    None
+                };
+                if got == *want {
+                    out.inc(if within { "extended_within_restarted_deadline_exact" } else { "extension_after_deadline_passed_through" });
+                } else {
+                    let w = json!({"config": cfg, "files": {"dict.txt": file}, "entry": e.line(), "sub_entry": f.line(), "press_orders": orders.iter().map(|o| o.iter().collect::<String>()).collect::<Vec<_>>(), "pause_after_sub_entry_ms": gap, "deadline": deadline,
+                        "history": render_hist(&b.hist), "observed": {"text": got, "os_stream": trace.iter().map(|o| o.short()).collect::<Vec<_>>()}, "expected": {"text": want}});
+                    let sig = match (known_class, within) {
+                        (Some(c), _) => format!("C20:wrong-text:{c}"),
+                        (None, true) => "C20:deadline-not-restarted-by-activation".to_string(),
+                        (None, false) if got == want_e => "C20:activated-after-deadline".to_string(),
+                        (None, false) => "C20:wrong-text:extension-after-deadline".to_string(),
+                    };
+                    out.violate(sig, format!("{:?} completed, then the keys extending it to {:?} {gap} ms later (deadline {deadline}): the application shows {got:?} instead of {want:?}", f.line(), e.line()), w);
+                }
+            }
+        }
+        // ---- a long pause between the chords of a line does not lose the follow-up
+        for e in d.entries.iter().filter(|e| e.chords.len() >= 2) {
+            let orders: Vec<Vec<char>> = e
+                .chords
+                .iter()
+                .map(|c| {
+                    let mut c = c.clone();
+                    rng.shuffle(&mut c);
+                    c
+                })
+                .collect();
+            let st = analyse(&d, e, &orders);
+            if st.ambiguous || st.followup_part_not_in_toplevel || st.followup_within_hold || st.followup_extends_sibling || st.empty_node_after_activation || st.chain_shared_prefix {
+                continue;
+            }
+            let b = build_entry_timed(&orders, Held::None, Tail::None, &mut rng, None, Some(deadline + 20));
+            let Ok((trace, _)) = run(&cfg, &file, &b.hist, None) else { continue };
+            let (screen, _) = replay(&trace, &km);
+            let got = text(&screen);
+            let want = expected_entry(&e.out, smart, Tail::None);
+            out.inc("slow_followup_scenarios");
+            if got == want {
+                out.inc("slow_followup_exact");
+            } else {
+                out.violate("C20:wrong-text:followup-after-pause", format!("chords of {:?} typed {} ms apart: the application shows {got:?} instead of {want:?}", e.line(), deadline + 20), json!({"config": cfg, "files": {"dict.txt": file}, "entry": e.line(), "history": render_hist(&b.hist), "observed": {"text": got}, "expected": {"text": want}}));
+            }
+        }
         if idx % 200 == 30 || idx == 0 {
             out.sample = Some(json!({"idx": idx, "dictionary": file, "smart_space": smart.name(), "deadline": deadline}));
         }
         out
     }
     fn rule(&self) -> String {
-        "case = one dictionary (33 cases with fixed dictionaries that are the same for every seed: the guide's / the tests' samples and the known-finding witnesses; then generated: 2-4 top-level chords of 2-4 keys over a-h, chords extending other chords by one key up to three levels with and without a shared output prefix, follow-up chords of 1-3 keys up to depth 3 incl. keys that occur in no top-level chord, nodes with empty output, upper/lower-case outputs with inner and trailing spaces) x one smart-space setting (idx mod 3) x deadline 30/500. Every entry is typed with every permutation of its last chord's keys (capped at 24 quick / 120 thorough; earlier chords in random order), gaps 1-3 ms, without modifier and with lsft / rsft / ralt held, followed by nothing / a foreign letter / a dot / both; then 4-8 random non-chord typings (taps, rolled pairs that are no subset of a chord, shift, punctuation, pauses) and one too-slow chord. Non-trivial = entry scenario replayed through the text-buffer model; distinct = (shape, depth, chord size, modifier, tail, smart-space).".into()
+        "case = one dictionary (33 cases with fixed dictionaries that are the same for every seed: the guide's / the tests' samples and the known-finding witnesses; then generated: 2-4 top-level chords of 2-4 keys over a-h, chords extending other chords by one key up to three levels with and without a shared output prefix, follow-up chords of 1-3 keys up to depth 3 incl. keys that occur in no top-level chord, nodes with empty output, upper/lower-case outputs with inner and trailing spaces) x one smart-space setting (idx mod 3) x deadline 30/500. Every entry is typed with every permutation of its last chord's keys (capped at 24 quick / 120 thorough; earlier chords in random order), gaps 1-3 ms, without modifier and with lsft / rsft / ralt held, followed by nothing / a foreign letter / a dot / both; then 4-8 random non-chord typings (taps, rolled pairs that are no subset of a chord, shift, punctuation, pauses), one too-slow chord, for every entry that extends another entry: the smaller chord first, the extending keys deadline-5 ms (must extend: an activation restarts the deadline) and deadline+5 ms (must pass through) after it, and every follow-up line with deadline+20 ms between its chords. Non-trivial = entry scenario replayed through the text-buffer model; distinct = (shape, depth, chord size, modifier, tail, smart-space).".into()
     }
     fn assumptions(&self) -> Vec<String> {
         vec![
@@ -769,6 +887,9 @@ impl Check for C20Check {
             ("modifier_state_restored", 5_000),
             ("passthrough_unchanged", 2_000),
             ("too_slow_passed_through", 200),
+            ("extended_within_restarted_deadline_exact", 300),
+            ("extension_after_deadline_passed_through", 300),
+            ("slow_followup_exact", 300),
             ("backspaces_counted", 20_000),
         ]
     }
